@@ -1046,6 +1046,7 @@ namespace Givaro {
 
         Pdom.give_prim_root(G,F);
         Pdom.assign(H,G);
+        Pdom.modin(H, F);   // the generator may have the degree of F (always for e == 1)
 
         typedef Poly1PadicDom< GFqDom<Any>, Dense > PadicDom;
         PadicDom PAD(Pdom);
@@ -1118,6 +1119,7 @@ namespace Givaro {
             Zp.init( G[i], genPoly[i]);
 
         Pdom.assign(H,G);
+        Pdom.modin(H, F);
 
         typedef Poly1PadicDom< GFqDom<Any>, Dense > PadicDom;
         PadicDom PAD(Pdom);
